@@ -11,7 +11,8 @@ pub struct Edge {
 pub fn base() -> CmdSpec {
     let mut c = CmdSpec::new("prog");
     for n in ["a", "b", "c", "d"] {
-        c.args.push(ArgSpec::flag(n, None, Some(n)));
+        // `b` also has a short, so that a line can give it twice with two distinct tokens
+        c.args.push(ArgSpec::flag(n, if n == "b" { Some('b') } else { None }, Some(n)));
     }
     c.args.push(ArgSpec::opt("o", None, Some("o")));
     let mut s = CmdSpec::new("sub");
@@ -107,6 +108,19 @@ pub fn catalogue() -> Vec<Edge> {
     e("args_conflicts_with_subcommands".into(), Box::new(|c| c.set(Setting::ArgsConflictsWithSubcommands)));
     e("args_override_self".into(), Box::new(|c| c.set(Setting::ArgsOverrideSelf)));
     e("o.append".into(), Box::new(|c| c.arg_mut("o").unwrap().action = Some(Act::Append)));
+    e("b.count".into(), Box::new(|c| {
+        let b = c.arg_mut("b").unwrap();
+        b.action = Some(Act::Count);
+        if b.env.is_some() {
+            // the environment value has to be in the counter's language
+            b.env = Some("CLAPMC_COUNT".into());
+        }
+    }));
+    e("c.overrides_with(o)".into(), Box::new(|c| c.arg_mut("c").unwrap().overrides.push("o".into())));
+    for x in ["a", "b"] {
+        let xs = x.to_string();
+        e(format!("{x}.hide"), Box::new(move |c| c.arg_mut(&xs).unwrap().hide = true));
+    }
     v
 }
 
@@ -124,7 +138,7 @@ pub fn graphs(k: usize) -> Vec<(Vec<String>, CmdSpec)> {
     out
 }
 
-pub const TOKENS: [&str; 7] = ["--a", "--b", "--c", "--d", "--o=x", "--o=y", "sub"];
+pub const TOKENS: [&str; 8] = ["--a", "--b", "--c", "--d", "--o=x", "--o=y", "sub", "-b"];
 
 /// Every sequence of distinct tokens of length <= n (every subset in every order).
 pub fn argvs(n: usize) -> Vec<Vec<Vec<u8>>> {
